@@ -173,12 +173,13 @@ class ExecBase:
     def _heap_wf(self, arr, sort, top, into=None):
         into = self.axioms if into is None else into
         o = z3.FreshConst(z3.IntSort(), "o")
+        live = z3.And(o > 0, o < top)  # only allocated objects are constrained; cells of unallocated ids are arbitrary
         if isinstance(sort, TRefS):
-            into.append(z3.ForAll([o], z3.And(z3.Select(arr, o) < top, z3.Select(arr, o) >= 0)))
+            into.append(z3.ForAll([o], z3.Implies(live, z3.And(z3.Select(arr, o) < top, z3.Select(arr, o) >= 0))))
         elif isinstance(sort, TList) and isinstance(sort.elem, TRefS):
             i = z3.FreshConst(z3.IntSort(), "i")
             l = z3.Select(arr, o)
-            into.append(z3.ForAll([o, i], z3.And(z3.Select(sort.arr(l), i) < top, z3.Select(sort.arr(l), i) >= 0)))
+            into.append(z3.ForAll([o, i], z3.Implies(live, z3.And(z3.Select(sort.arr(l), i) < top, z3.Select(sort.arr(l), i) >= 0))))
             into.append(z3.ForAll([o], sort.len(l) >= 0))
             into.append(z3.ForAll([o, i], z3.Or(z3.And(i >= 0, i < sort.len(l)), z3.Select(sort.arr(l), i) == 0)))
         elif isinstance(sort, TList):
